@@ -549,12 +549,19 @@ mod quic {
                 other => { eprintln!("C04 quic: no inbound substream: {:?}", other.map(|x| x.map(|y| y.0))); return vec![11, PANIC] }
             };
             let mut dialer = dialer;
+            // as in c04::run_e2e: more frames than messages offered ends the reader (code 6), a timed-out operation ends the writer
+            let max_frames = ops.iter().filter(|o| o.0 == 1 || o.0 == 3).count();
             let reader = tokio::spawn(async move {
                 let mut sub = listener;
                 let mut frames: Vec<Vec<u8>> = Vec::new();
                 loop {
                     match tokio::time::timeout(limit, sub.next()).await {
-                        Ok(Some(Ok(f))) => frames.push(f.to_vec()),
+                        Ok(Some(Ok(f))) => {
+                            frames.push(f.to_vec());
+                            if frames.len() > max_frames {
+                                return (frames, 6u64);
+                            }
+                        }
                         Ok(None) => return (frames, 1u64),
                         Ok(Some(Err(SubstreamError::ReadFailure(_)))) => return (frames, 3),
                         Ok(Some(Err(_))) => return (frames, 4),
@@ -562,7 +569,12 @@ mod quic {
                     }
                 }
             });
+            let mut timed_out = false;
             for (t, b, len) in ops {
+                if timed_out {
+                    out.push(7);
+                    continue;
+                }
                 let code = match t {
                     1 => match tokio::time::timeout(limit, dialer.feed(mk_msg(b, len))).await {
                         Ok(Ok(())) => 1,
@@ -585,6 +597,7 @@ mod quic {
                         Err(_) => 7,
                     },
                 };
+                timed_out = code == 7;
                 out.push(code);
             }
             let (frames, fin) = reader.await.unwrap_or((Vec::new(), PANIC));
